@@ -1,13 +1,164 @@
-//! Driver for the libFuzzer campaigns of the thorough tier (C08, C09); the byte-level entry
-//! functions themselves live in `fuzz_entry` and are shared with the in-process replay.
+//! Driver for the libFuzzer campaigns of the thorough tier (C08, C09).  The byte-level entry
+//! functions live in `fuzz_entry` and are shared with the in-process replay of saved inputs.
 
 use crate::engine::*;
-use serde_json::Value;
+use serde_json::{json, Value};
+use std::process::Command;
 
-pub fn run_campaign(_ctx: &Ctx, rep: &Report, target: &str, _check: &str) {
-    rep.note(format!("libFuzzer campaign for {} not built in this revision", target));
+fn run_entry(target: &str, data: &[u8]) -> Result<(), String> {
+    catch(|| match target {
+        "c08_robust" => crate::fuzz_entry::c08(data),
+        _ => crate::fuzz_entry::c09(data),
+    })
 }
 
-pub fn replay_input(_rep: &Report, ck: &str, case: &Value) -> CheckResult {
-    Err(Fail { check: ck.into(), site: "replay-unknown-check".into(), msg: "no replay routine for this check".into(), case: case.clone() })
+fn site_of(target: &str, panic: &str) -> String {
+    // strip numbers / hex so that the site is stable
+    let mut out = String::new();
+    let mut last = false;
+    for ch in panic.chars().take(160) {
+        if ch.is_ascii_hexdigit() && (ch.is_ascii_digit() || last) {
+            if !last {
+                out.push('N');
+            }
+            last = true;
+        } else {
+            out.push(ch);
+            last = false;
+        }
+    }
+    format!("libfuzzer:{}:{}", target, out)
+}
+
+/// in-process smoke run of the entry functions over the seed corpus and deterministic random bytes
+/// (also part of the quick tier, so that the targets themselves are exercised on every change)
+pub fn smoke(ctx: &Ctx, rep: &Report, target: &str, check: &str, n_random: usize) {
+    let mut inputs = crate::fuzz_entry::seeds(target);
+    let mut st = derive_u64(ctx, target);
+    for i in 0..n_random {
+        let len = (crate::gen::splitmix(&mut st) % 96) as usize + 3;
+        let mut v = vec![0u8; len];
+        crate::gen::fill_random(crate::gen::splitmix(&mut st), &mut v);
+        if i % 2 == 0 {
+            v[2] %= 3; // few mutations: stay close to honest artefacts
+        }
+        inputs.push(v);
+    }
+    par_items(ctx, rep, check, &inputs, |inp| {
+        rep.eval(check, 1);
+        match run_entry(target, inp) {
+            Ok(()) => {
+                rep.nontrivial(check, &hex::encode(inp));
+                Ok(())
+            }
+            Err(p) => rep.fail(check, &site_of(target, &p), format!("{} on input {}: {}", target, hex::encode(inp), p), json!({"target": target, "input_hex": hex::encode(inp)})),
+        }
+    });
+}
+
+pub fn run_campaign(ctx: &Ctx, rep: &Report, target: &str, check: &str) {
+    let vd = verif_dir();
+    let build = format!("{}/.build", vd);
+    let tdir = format!("{}/fuzz-target", build);
+    let work = format!("{}/fuzz-work/{}-{}", build, target, std::process::id());
+    let corpus = format!("{}/corpus", work);
+    let arts = format!("{}/artifacts/", work);
+    let _ = std::fs::remove_dir_all(&work);
+    if std::fs::create_dir_all(&corpus).is_err() || std::fs::create_dir_all(&arts).is_err() {
+        rep.note("libFuzzer: cannot create the work directory".into());
+        return;
+    }
+    for (i, s) in crate::fuzz_entry::seeds(target).iter().enumerate() {
+        let _ = std::fs::write(format!("{}/seed-{:04}", corpus, i), s);
+    }
+    let runs: u64 = std::env::var("VERIF_FUZZ_RUNS").ok().and_then(|s| s.parse().ok()).unwrap_or(400_000);
+    let jobs = (ctx.workers / 2).max(1);
+    let base_args = |sub: &str| {
+        let mut c = Command::new("cargo");
+        c.current_dir(format!("{}/harness", vd)).args(["+nightly", "fuzz", sub, "--fuzz-dir", &format!("{}/fuzz", vd), "--target-dir", &tdir, target]);
+        c.env("CARGO_NET_OFFLINE", "true");
+        c
+    };
+    // the tree under test may have been swapped with older file times: force zkryptium to be rebuilt
+    let _ = Command::new("cargo")
+        .current_dir(format!("{}/fuzz", vd))
+        .args(["+nightly", "clean", "-p", "zkryptium", "--release", "--target", "x86_64-unknown-linux-gnu", "--target-dir", &tdir])
+        .env("CARGO_NET_OFFLINE", "true")
+        .output();
+    let b = base_args("build").output();
+    match b {
+        Ok(o) if o.status.success() => {}
+        Ok(o) => {
+            out(&format!("INCONCLUSIVE property={} cargo fuzz build {} failed: {}", ctx.prop, target, truncate(&String::from_utf8_lossy(&o.stderr), 400)));
+            std::process::exit(2);
+        }
+        Err(e) => {
+            out(&format!("INCONCLUSIVE property={} cannot run cargo fuzz: {}", ctx.prop, e));
+            std::process::exit(2);
+        }
+    }
+    // `jobs` independent fuzzing processes with different seeds, `runs / jobs` executions each
+    let per = runs / jobs as u64;
+    let children: Vec<_> = (0..jobs)
+        .map(|j| {
+            let mut c = base_args("run");
+            let cdir = format!("{}-{}", corpus, j);
+            let _ = std::fs::create_dir_all(&cdir);
+            c.arg(&cdir).arg(&corpus).arg("--");
+            c.args([format!("-runs={}", per), format!("-seed={}", ctx.seed.wrapping_mul(31).wrapping_add(j as u64 + 1) % 2_000_000_000 + 1), "-max_len=2048".into(), "-len_control=0".into(), format!("-artifact_prefix={}", arts), "-print_final_stats=1".into(), "-timeout=30".into()]);
+            c.stdout(std::process::Stdio::null()).stderr(std::process::Stdio::piped());
+            c.spawn()
+        })
+        .collect();
+    let mut total_execs = 0u64;
+    let mut crashed = false;
+    for ch in children {
+        let Ok(ch) = ch else { continue };
+        let Ok(o) = ch.wait_with_output() else { continue };
+        let err = String::from_utf8_lossy(&o.stderr);
+        for line in err.lines() {
+            if let Some(r) = line.strip_prefix("stat::number_of_executed_units:") {
+                total_execs += r.trim().parse::<u64>().unwrap_or(0);
+            }
+        }
+        if !o.status.success() {
+            crashed = true;
+        }
+    }
+    rep.eval(check, total_execs);
+    rep.class_n(&format!("libfuzzer-executions:{}", target), total_execs);
+    rep.note(format!("libFuzzer {}: {} executions in {} processes (ASan, debug assertions and overflow checks on), seed corpus of {} structured inputs", target, total_execs, jobs, crate::fuzz_entry::seeds(target).len()));
+    let mut found = vec![];
+    if let Ok(rd) = std::fs::read_dir(&arts) {
+        for e in rd.flatten() {
+            if let Ok(data) = std::fs::read(e.path()) {
+                found.push((e.file_name().to_string_lossy().to_string(), data));
+            }
+        }
+    }
+    found.sort();
+    for (name, data) in found.iter().take(3) {
+        let (site, msg) = match run_entry(target, data) {
+            Err(p) => (site_of(target, &p), format!("{} (libFuzzer artefact {}): {}", target, name, p)),
+            Ok(()) => (format!("libfuzzer:{}:crash-not-reproduced-in-process", target), format!("libFuzzer reported {} but the input passes in-process (sanitizer finding, timeout or out-of-memory)", name)),
+        };
+        if let Err(f) = rep.fail(check, &site, msg, json!({"target": target, "input_hex": hex::encode(data)})) {
+            rep.add_violation(f);
+        }
+    }
+    if crashed && found.is_empty() {
+        rep.note(format!("libFuzzer {} exited non-zero without leaving an artefact (treated as inconclusive for the campaign)", target));
+    }
+    let _ = std::fs::remove_dir_all(&work);
+}
+
+pub fn replay_input(rep: &Report, ck: &str, case: &Value) -> CheckResult {
+    let target = case["target"].as_str().unwrap_or("c08_robust").to_string();
+    let Ok(data) = hex::decode(case["input_hex"].as_str().unwrap_or("")) else {
+        return Err(Fail { check: ck.into(), site: "replay-parse".into(), msg: "input_hex missing".into(), case: case.clone() });
+    };
+    match run_entry(&target, &data) {
+        Ok(()) => Ok(()),
+        Err(p) => rep.fail(ck, &site_of(&target, &p), format!("{}: {}", target, p), case.clone()),
+    }
 }
